@@ -7,7 +7,9 @@ from simkit.core import EventLog, Outcome, Violation, stable_hash
 from props.repro_common import (Doc, Seg, NAMES, WORDS, variants, gen_doc, norm_assigned,
                                 assignable, mini_parse_field, parse, sut_summary)
 
-SORTKEYS = {"len": lambda x: (len(x), x.lower()), "rev": lambda x: x.lower()[::-1]}
+SORTKEYS = {"len": lambda x: (len(x), x.lower()), "rev": lambda x: x.lower()[::-1],
+            "orig": lambda x: str(x),          # sees the spelling kept in the document
+            "lenonly": lambda x: len(x)}       # ties: sorted() is stable
 ORDER_OPS = ("order_first", "order_last", "order_before", "order_after")
 
 
@@ -94,7 +96,7 @@ def generate_case(rng_world, rng_swarm, rng_sched, profile):
             st["ref"] = gen_key(rng_sched, doc, pi % max(len(doc.paras), 1), 0.1)
             st["ridx"] = gen_idx(rng_sched, profile, dupc)
         if k == "sort":
-            st["skey"] = rng_sched.choice([None, None, "len", "rev"])
+            st["skey"] = rng_sched.choice([None, None, "len", "rev", "orig", "lenonly"])
         if k in ("append", "insert"):
             st["fields"] = gen_fields(rng_sched)
             st["build"] = rng_sched.choice(["setitem", "from_dict"])
